@@ -249,6 +249,8 @@ class Writer(Client):
             op["vt"] = design.k + 1 if n == "k+1" else n
         if rng.random() < 0.2:
             op["np_start"] = True
+        if op["table"] and rng.random() < 0.25:
+            op["table_dtype"] = rng.choice(["uint8", "int8", "int32", "uint16"])     # same rows, another integer dtype
         return op
 
     def deliver(self, op, rec):
@@ -437,6 +439,10 @@ class Sequencer(Client):
             op["bit_length"] = max(0, rng.choice([exact, exact, 0, exact // 2, exact + rng.randint(1, 9), 2 * len(read) + 2]))
             op["fast"] = rdesign.hist[3] == 0 and (mol.fast or rng.random() < 0.3)
             op["table"] = mol.table if rng.random() < 0.8 else None
+            if op["table"] and rng.random() < 0.25:
+                op["table_dtype"] = rng.choice(["uint8", "int8", "int32", "uint16"])
+            if rng.random() < 0.15:
+                op["np_bitlen"] = rng.choice(["int64", "int32", "uint16", "uint8", "int8"])
         elif op["mode"] == "repair":
             op["has_indel"] = rng.random() < 0.6 and kind != "ULTRA"
             op["heap"] = rng.choice(sim.prof["heaps"]) if kind != "ULTRA" else 1000
